@@ -190,6 +190,7 @@ pub fn execute_range(prop: &dyn Prop, cfg: &RunCfg, known: &[Known]) -> Summary 
                             g.index = index;
                             g.case = None;
                         }
+                        crate::crash::enter(t, index);
                         let case = Arc::new(prop.gen(&mut rng, cfg.tier, index));
                         {
                             let mut g = slots[t].lock().unwrap();
@@ -203,6 +204,7 @@ pub fn execute_range(prop: &dyn Prop, cfg: &RunCfg, known: &[Known]) -> Summary 
                             g.started = None;
                             g.case = None;
                         }
+                        crate::crash::leave(t);
                         done_count.fetch_add(1, Ordering::Relaxed);
                         let out: RunOut = match out {
                             Ok(o) => o,
@@ -501,6 +503,7 @@ pub fn run_check(prop: &dyn Prop, cfg: &RunCfg) -> i32 {
     // first, so a defect that returns is reported with exactly the trace that exposed it
     let mut regressions = 0;
     let mut regression_known_hits: BTreeMap<String, u64> = BTreeMap::new();
+    crate::crash::install();
     spawn_seq_watchdog();
     let mut files: Vec<std::path::PathBuf> = Vec::new();
     for sub in ["findings", "corpus"] {
